@@ -450,6 +450,7 @@ func runServer(work, prop string) {
 	if prop == "C04" {
 		serverArgsSweep(e)
 		serverConcurrentAnswers(e)
+		callsAfterStreamPushes(e)
 	}
 	e.Res.Rule = "seeded random walks over the gated actions of one server connection (request arrives: call on three handler shapes / failing call / ping / unknown method / undecodable arguments / undecodable header; header decode; handler returns; peer disconnects, also in the middle of traffic) in the four modes pipelining x directIO, each followed by a drain and a disconnect; observables (handler entries, returns, responses on the wire, teardown completion) compared with the model after every action; non-trivial = distinct (mode, action-shape sequence)"
 	names := writeCases(work, "From Coq Require Import List. Import ListNotations. From RPC Require Import RunServer. From RPC.Server Require Import Model.", "scase", cases, 60)
